@@ -481,6 +481,10 @@ structure DSt where
   status : Status := .fresh
   spec : Spec.S := {}
   specBroken : Bool := false
+  /-- twin: the application has unbound a binding of the root window's (it handed `unbind` a stale identifier of its own that
+      window.c had since been given): from here on the history is outside the assumption `Intact`; model and code are still
+      compared, the specification is no longer evaluated -/
+  outside : Bool := false
 
 def ownerOf (k : Nat) : Owner :=
   if k = 1 then { Owner.pen with holdsRef := Gen.Bindings.penEmitterRef }
@@ -555,7 +559,11 @@ def step (d : DSt) (ts : List String) (impl : String) : DSt × String × String 
           if d.kind = 3 then
             match execW genCfg own beh FUEL wop { st := d.st, root := d.root, libKeys := d.libKeys } with
             | .ok w' =>
-              ({ d with st := w'.st, root := w'.root, libKeys := w'.libKeys,
+              -- did an operation of the application's (not the root window's own) unbind one of the root window's bindings?
+              let seg := w'.st.log.take (w'.st.log.length - d.st.log.length)
+              let foreign := (match wop with | .base .destroy => false | .base _ => true | _ => false) &&
+                seg.any (fun e => match e with | .unbindReq k => d.libKeys.contains k | _ => false)
+              ({ d with st := w'.st, root := w'.root, libKeys := w'.libKeys, outside := d.outside || foreign,
                         status := if wop = .base .destroy || w'.st.dead then .dead else .run },
                "log" ++ showSegment w'.st.log d.st.log w'.libKeys)
             | .ub w => ({ d with status := .broken w }, "ub:" ++ w.replace " " "_")
@@ -584,7 +592,7 @@ def step (d : DSt) (ts : List String) (impl : String) : DSt × String × String 
           | .rootClose => fun s => { s with stack := .quiet "tickit_window_close of the root window" :: s.stack }
         let itoks := toks impl
         let (spec', verdict) :=
-          if d.specBroken then (d.spec, "")
+          if d.specBroken || d.outside then (d.spec, "")
           else match itoks with
             | "log" :: rest =>
               match Spec.checkOp own beh d.spec begin rest with
